@@ -94,7 +94,14 @@ def bits(e, env):
     raise ValueError(e)
 
 
-BIT_LIMIT = 38      # leaves room for the integer factors and the sums that differentiation adds
+# Float64 exactness by construction.  bits(e) = (m, d): |value of e| <= 2^m and value * 2^d is an integer, for every generated point
+# (states, parameters in [-2, 2] with denominator 4; history values |.| <= 6, denominator 16; constants |c| <= 2, denominator 8).
+# Every right-hand side and every intermediate is generated with m + d <= BIT_LIMIT.  A Jacobian entry is a sum of at most 2^6
+# products; each product is a partial derivative of a product already bounded by bits(f) (an atom contributes >= 2 bits, so removing
+# a factor never increases the bound) times an integer exponent <= 3 (2 bits); the chain through an intermediate m replaces the
+# factor m by its derivative, bounded by bits(m) + 2.  Every intermediate float value therefore needs at most
+# BIT_LIMIT + 2 + 2 + 6 = 46 < 53 significant bits, whatever association or expansion sympy chooses: float64 arithmetic is exact.
+BIT_LIMIT = 36
 
 
 # ---------------------------------------------------------------------------------------------- impl side (worker)
@@ -148,7 +155,11 @@ STANDINS = {   # polynomial stand-ins for the transcendental functions (the same
 def patch_standins(func):
     """replace the transcendental functions that the generated module defines/imports (and only those: a missing import stays
     a NameError) by the stand-ins"""
-    g = func.__globals__
+    g = getattr(func, "__globals__", None)
+    if g is None:       # a jitted jax function: the python function is underneath
+        g = getattr(getattr(func, "__wrapped__", None), "__globals__", None)
+    if g is None:
+        return
     for nm, f in STANDINS.items():
         if nm in g:
             g[nm] = f
@@ -202,11 +213,11 @@ def impl(case):
         pyr.reset_pyrates()
 
     # ---- the Jacobian(s)
-    def jac(sparse, tag):
+    def jac(sparse, tag, backend="default"):
         pyr.reset_pyrates()
         try:
             c = build_circuit(case)
-            jf, jargs, jnames, jsmap = c.get_jacobian_func("jf", file_name="jfile" + tag, sparse=sparse, **kw)
+            jf, jargs, jnames, jsmap = c.get_jacobian_func("jf", file_name="jfile" + tag, sparse=sparse, **dict(kw, backend=backend))
             patch_standins(jf)
             src = open("jfile" + tag + ".py").read()
             jsmap = {k: int(v) for k, v in jsmap.items()}
@@ -249,6 +260,14 @@ def impl(case):
         finally:
             pyr.reset_pyrates()
 
+    if case.get("jax"):      # Jacobian through the jax backend (jax.numpy arrays); sparse=True must be refused loudly there
+        out["dense"] = jac(False, "d", backend="jax")
+        try:
+            jac(True, "s", backend="jax")
+            out["sparse_refused"] = False
+        except NotImplementedError:
+            out["sparse_refused"] = True
+        return out
     out["dense"] = jac(False, "d")
     if case.get("sparse"):
         out["sparse"] = jac(True, "s")
@@ -295,6 +314,32 @@ def auto_impl(case):
             res.append(dict(F=fracs(dyv), dfdu=[fracs(r) for r in dfdu], dfdp=[fracs(r) for r in dfdp]))
         return dict(smap_run=smap, slots=[[int(sl), nm] for sl, nm in zip(slots, pnames)], defaults=defaults, res=res,
                     unames=[[int(k), v] for k, v in sorted(consts.get("unames", {}).items())])
+    finally:
+        pyr.reset_pyrates()
+
+
+def opaque_impl(case):
+    """witness of finding C12-F6: a function without a derivative rule (maxi/mini) leaves the Jacobian entry 0 although the vector
+    field depends on the variable (difference quotient of the run function is not 0)"""
+    import numpy as np
+    import pyr
+    from pyrates import CircuitTemplate, OperatorTemplate, NodeTemplate
+    kw = dict(step_size=1e-3, solver="euler", in_place=False, clear=False, vectorize=False, backend="default", float_precision="float64", verbose=False)
+    def circ():
+        op = OperatorTemplate(name="opq", equations=case["equations"], variables=case["variables"])
+        return CircuitTemplate(name="c", nodes={"A": NodeTemplate(name="n", operators=[op])})
+    pyr.reset_pyrates()
+    try:
+        f, args, names, smap = circ().get_run_func("rf", file_name="rfile", **kw)
+        y = np.array([float(Fr(v)) for v in case["y"]])
+        i, j = case["entry"]
+        yp = y.copy(); yp[j] += 0.25
+        dq = (np.array(f(0.0, yp, np.zeros(len(y)), *args[3:]))[i] - np.array(f(0.0, y.copy(), np.zeros(len(y)), *args[3:]))[i]) / 0.25
+        pyr.reset_pyrates()
+        jf, jargs, jnames, jsmap = circ().get_jacobian_func("jf", file_name="jfile", **kw)
+        J = np.asarray(jf(0.0, y.copy(), *jargs[2:]), dtype=np.float64)
+        warn = open("jfile.py").read().count("# WARNING: could not differentiate")
+        return dict(entry=float(J[i, j]), difference_quotient=float(dq), warnings=warn, silent_zero=bool(J[i, j] == 0.0 and dq != 0.0 and warn > 0))
     finally:
         pyr.reset_pyrates()
 
@@ -371,6 +416,7 @@ def gen_case(rng, allow_viol=False, absv=False, want_delay=None, fns=False, npar
                     while Fr(e[3]) in ws:
                         e[3] = dy(rng, -2, 2, 4, nonzero=True)
                     ws.append(Fr(e[3]))
+    tau_default = dy(rng, 0, 2, 4, nonzero=True)
     nodes, cls_inter, bits_inter = [], {}, {}
     viol = False
     for i in range(nn):
@@ -378,7 +424,8 @@ def gen_case(rng, allow_viol=False, absv=False, want_delay=None, fns=False, npar
         params = [[p, dy(rng, -2, 2, 4, nonzero=True)] for p in (PARAM_NAMES + [f"p{q}" for q in range(9)])[:nparams or rng.randint(1, 3)]]
         tau = None
         if delays and rng.random() < 0.7:
-            tau = "tau"; params.append(["tau", dy(rng, 0, 2, 4, nonzero=True)])
+            # often the same default in every node: the delays are then told apart only by their names / runtime values
+            tau = "tau"; params.append(["tau", tau_default if rng.random() < 0.6 else dy(rng, 0, 2, 4, nonzero=True)])
         inc = [e for e in edges if e[2] == i]
         # class of the input variable: clean / delayed (no state dependence) / mixed (sum of both)
         cl = set()
@@ -892,6 +939,10 @@ def check(ctx):
             cases.append(gen_case(ctx.rng, allow_viol=((FIXED_D08B or GUARD_DELAYED in listed) and r < 0.1),
                                   absv=(0.1 <= r < 0.25),
                                   want_delay=(True if k % 2 == 0 else None), fns=(k % 4 == 1)))
+        for k in range(3 if ctx.tier == "quick" else 20):
+            c = gen_case(ctx.rng, want_delay=(k % 2 == 0), absv=(k % 3 == 0))
+            c["jax"] = True; c["sparse"] = False
+            cases.append(c)
         cases += [gen_auto_case(ctx.rng, many=(True if k % 3 < 2 else None), need_edges=(k % 3 == 0)) for k in range(n_auto)]
     outs = run_impl(ctx, "c12", "impl", cases, per_case_timeout=90)
     crashed = [i for i, r in enumerate(outs) if "err" in r]
@@ -903,6 +954,8 @@ def check(ctx):
     for i in range(len(cases)):
         if i not in crashed and i not in skipped:
             msg = None if cases[i].get("auto") else check_defaults(cases[i], outs[i])
+            if cases[i].get("jax") and not outs[i].get("sparse_refused"):
+                msg = "backend='jax', sparse=True was not refused with NotImplementedError"
             if msg:
                 outs[i] = {"err": "harness", "msg": msg}; crashed.append(i)
     good = [i for i in range(len(cases)) if i not in crashed and i not in skipped]
@@ -947,6 +1000,9 @@ def check(ctx):
         w = f.get("witness")
         path = os.path.join(VERIF, w) if w and not os.path.isabs(w) else w
         c = json.load(open(path))
+        if c.get("kind") == "opaque_fn":
+            r = run_impl(ctx, "c12", "opaque_impl", [c], nworkers=1)[0]
+            return bool(r.get("silent_zero"))
         return fails(ctx, c, "wit")[0]
 
     def show(c):
